@@ -438,15 +438,15 @@ Proof.
     set (x := w_rate s / mean) in *. unfold ent_len, ishare.
     assert (L1 : len (inter (mkI 0 1) (mkI 0 x)) == x) by (unfold len, inter; simpl; qmm).
     assert (L2 : len (inter (mkI 0 1) (mkI x 1)) == 1 - x) by (unfold len, inter; simpl; qmm).
-    destruct (Nat.eqb (w_id s) i); destruct (Nat.eqb (w_id l) i); rewrite ?L1, ?L2.
-    + unfold Qdiv. rewrite Qmult_plus_distr_l. fold (w_rate s / mean). fold x. fold (w_rate l / mean). lra.
-    + unfold Qdiv. rewrite Qmult_plus_distr_l. fold (w_rate s / mean). fold x. field_simplify; try lra.
-    + unfold Qdiv. rewrite Qmult_plus_distr_l. fold (w_rate l / mean). field_simplify; try lra.
-      rewrite D. field_simplify; lra.
-    + field. lra.
+    assert (P1 : (w_rate s + w_rate l) / mean == x + (1 - x)) by (unfold x; rewrite C; field; lra).
+    assert (P2 : (w_rate s + 0) / mean == x) by (unfold x; field; lra).
+    assert (P3 : (0 + w_rate l) / mean == 1 - x) by (unfold x; rewrite C; field; lra).
+    assert (P4 : (0 + 0) / mean == 0) by (field; lra).
+    destruct (Nat.eqb (w_id s) i); destruct (Nat.eqb (w_id l) i);
+      rewrite ?L1, ?L2, ?P1, ?P2, ?P3, ?P4; lra.
   - assert (D : w_rate it / mean == 1) by (rewrite Hr; field; lra).
     unfold ent_len, ishare. destruct (Nat.eqb (w_id it) i).
-    + rewrite D. unfold len, inter. simpl. qmm.
+    + set (x := w_rate it / mean) in *. unfold len, inter. simpl. qmm.
     + field. lra.
 Qed.
 
